@@ -199,7 +199,10 @@ func crashOracle(s *Spec, probes [][]byte, stats *crashStats, crashOps func(w *W
 						if op.Kind == OpLVFO {
 							class = classifyRollbackImage(img, pre, op.Ver)
 						}
-						if op.Kind == OpSave && class == "other" && indexAheadOfTree(img, pre, postM.Latest) {
+						// known only where the pinned code has it: the stop fell INSIDE the staging of the index changes
+						// (the next record the commit would have written is a fast-index entry or the index label
+						// itself). A stop after the index changes whose label was not with them is a different defect.
+						if op.Kind == OpSave && class == "other" && c < len(log) && len(log[c]) > 0 && (log[c][0].K[0] == 'f' || log[c][0].K[0] == 'm') && indexAheadOfTree(img, pre, postM.Latest) {
 							class = "fast_index_entries_without_label_update"
 						}
 						vv.Facts = map[string]any{"op": opNames[op.Kind], "cut": c, "writes": len(log), "symptom": ferr.Oracle, "class": class}
